@@ -22,6 +22,7 @@ CHECKS["C07"] = {
     "technique": "bounded-exhaustive enumeration + rapid random generation against a reference model (segment stack) and containment predicates; FS sandbox with canary files",
     "nontrivial_floor": 1000,
     "units": [
+        {"name": "file-from-fs", "run": "^TestC07FileFromFS$", "kind": "plain"},
         {"name": "fs-vhost", "run": "^TestC07VHost$", "kind": "plain", "shards": 4},
         {"name": "regress", "run": "^TestC07Regress$", "kind": "plain"},
         {"name": "exhaustive", "run": "^TestC07Exhaustive$", "kind": "plain", "shards": 16},
